@@ -109,7 +109,7 @@ def obs_canary(chk, uniq):
     c["textEq"] = False
     bad = validate_obs(chk, [good[0], c], label="obs_canary")
     if len(bad) != 1 or "C02-not-lossless" not in bad[0][1]:
-        raise vlib.ToolError("canary (textEq flipped) not rejected by Trace_ParseObs")
+        chk.canary_failed.append("canary (textEq flipped) not rejected by Trace_ParseObs")
 
 
 def norm_msg(s):
@@ -209,7 +209,7 @@ def trace_canary(chk, trace_path):
                      deque=True, timeout=600, xmx="2g", on_json=lambda v: result.append(v))
         res = [v for v in result if v and v[0] == "RESULT"]
         if not res or not res[0][2]:
-            raise vlib.ToolError("canary (dropped Tok event) accepted by Trace_ParserCore")
+            chk.canary_failed.append("canary (dropped Tok event) accepted by Trace_ParserCore")
         return True
     return False
 
